@@ -396,7 +396,7 @@ func runBehaviour(t *testing.T, in *vio.Input, bi int, b vio.Behaviour, v varian
 	w.cond = sync.NewCond(&w.mu)
 	verifhook.Set(w.hook)
 	defer verifhook.Set(nil)
-	r, err := relayenv.Start(relayConfig(v, "127.0.0.5"), zapcore.InfoLevel)
+	r, err := relayenv.Start(relayConfig(v, "127.0.0.5"), zapcore.DebugLevel)
 	if err != nil {
 		res.Break("start relay: %v", err)
 		return
@@ -568,6 +568,7 @@ func runBehaviour(t *testing.T, in *vio.Input, bi int, b vio.Behaviour, v varian
 				queued[a.S] = append(queued[a.S], payload)
 			}
 			before := w.signalCount("relay.recv.enqueued", a.S)
+			dropsBefore := r.CountLogs("Dropping packet due to full send channel")
 			if a.Out == "new" {
 				delete(natAddr, a.S)
 				w.mu.Lock()
@@ -584,6 +585,13 @@ func runBehaviour(t *testing.T, in *vio.Input, bi int, b vio.Behaviour, v varian
 				if a.Out != "new" && w.signalCount("relay.recv.afterInsert", "") > 0 {
 					// the relay made a NEW session where the model has a live one: the session was torn down early
 					fail("relay.lifecycle/session-lost", "a packet of a live session created a new session", si, a.Out, "new")
+					finish(si)
+					return
+				}
+				if a.Out != "dropped" && r.CountLogs("Dropping packet due to full send channel") > dropsBefore {
+					// the relay itself says it received this valid datagram and threw it away, while the session's queue
+					// (model: fewer than ChanCap packets waiting) has room: the datagram does not leave towards its target
+					fail("relay.uplink/valid-datagram-dropped", fmt.Sprintf("the relay dropped valid datagram %q of session %s although its send queue has room", payload, a.S), si, a.Out, "dropped")
 					finish(si)
 					return
 				}
